@@ -48,8 +48,13 @@ for d in sorted(glob.glob(os.path.join(ROOT, "seeded", "*", ""))):
         res = ["superseded (no longer a violation on the current tree)"]
     srows.append("| %s | %s | %s | %s |" % (name, meta.get("property"), (meta.get("needs") or "").replace("\n", " ").replace("|", "/")[:260], "; ".join(res) or "not run"))
 seeds = "\n".join(srows)
+frows = ["| property | id | status | commit | what fails (witness class) |", "|---|---|---|---|---|"]
+for k in sorted(K, key=lambda k: (k["property"], k["status"] != "known", k["id"])):
+    w = re.sub(r"^(known|fixed): *", "", k["what"]); w = re.sub(r"^property=C\d\d *[0-9a-f]{7}? *", "", w)
+    frows.append("| %s | %s | %s | %s | %s |" % (k["property"], k["id"], k["status"], k.get("commit", "-"), w.replace("|", "/").replace("\n", " ")[:300]))
+findings = "\n".join(frows)
 p = os.path.join(ROOT, "DESIGN.md"); s = open(p).read()
-for tag, body in (("state", state), ("seeds", seeds)):
+for tag, body in (("state", state), ("seeds", seeds), ("findings", findings)):
     b, e = "<!-- BEGIN GENERATED: %s -->" % tag, "<!-- END GENERATED: %s -->" % tag
     if b in s:
         s = s[:s.index(b) + len(b)] + "\n" + body + "\n" + s[s.index(e):]
